@@ -27,7 +27,28 @@ static void b_ghosts(void)
   verif_b_loaded.token = nondet_unsigned();
   verif_b_read_calls = 0; verif_b_write_calls = 0;
 }
+#if LAYER >= 4
+IN_SCALAR_T nondet_IN_SCALAR_T(void);
+OUT_SCALAR_T nondet_OUT_SCALAR_T(void);
+void h_read_binary_invec(void) { VERIF_ISTREAM in_fs = nondet_istream(); verif_thrown = 0; IN_VEC_T r = read_binary_invec(&in_fs); (void)r; VERIF_REACH(); }
+static void nondet_conf(LAYER_OWN_T *o)
+{
+  for (unsigned k = 0; k < DIMS_IN; k++) { o->m_min.m_data[k] = nondet_IN_SCALAR_T(); o->m_max.m_data[k] = nondet_IN_SCALAR_T(); }
+#if LAYER == 5
+  for (unsigned k = 0; k < DIMS_OUT; k++) o->m_default.m_data[k] = nondet_OUT_SCALAR_T();
+#endif
+  o->m_backend.token = nondet_unsigned();
+}
+#else
+static void nondet_conf(LAYER_OWN_T *o)
+{
+  for (unsigned k = 0; k < DIMS_IN; k++) o->m_sizes.m_data[k] = nondet_size_t();
+  o->m_storage.token = nondet_unsigned();
+}
+#endif
+#if LAYER <= 3
 void h_read_binary_ndsize(void) { VERIF_ISTREAM in_fs = nondet_istream(); verif_thrown = 0; ND_SIZE_T r = read_binary_ndsize(&in_fs); (void)r; VERIF_REACH(); }
+#endif
 void h_layer_read_binary(void)
 {
   VERIF_ISTREAM in_fs = nondet_istream();
@@ -41,8 +62,7 @@ void h_layer_write_binary(void)
 {
   VERIF_OSTREAM in_fs = nondet_ostream();
   LAYER_OWN_T in_o;
-  for (unsigned k = 0; k < DIMS_IN; k++) in_o.m_sizes.m_data[k] = nondet_size_t();
-  in_o.m_storage.token = nondet_unsigned();
+  nondet_conf(&in_o);
   b_ghosts();
   verif_l0 = in_fs.len;
   layer_write_binary(&in_fs, &in_o);
@@ -60,11 +80,10 @@ void h_layer_roundtrip(void)
   out.len = nondet_size_t();
   __CPROVER_assume(out.len <= out.cap);
   LAYER_OWN_T in_o;
-  for (unsigned k = 0; k < DIMS_IN; k++) in_o.m_sizes.m_data[k] = nondet_size_t();
-  in_o.m_storage.token = nondet_unsigned();
+  nondet_conf(&in_o);
   b_ghosts();
   verif_b_image_ok = 1;
-  verif_b_loaded.token = in_o.m_storage.token;
+  verif_b_loaded.token = in_o.B_MEMBER.token;
   __CPROVER_assume(verif_b_image_len <= VERIF_STREAM_MAX && out.cap - out.len >= 16 + CONF_BYTES + verif_b_image_len);
   verif_l0 = out.len;
   size_t l0 = out.len;
@@ -75,8 +94,13 @@ void h_layer_roundtrip(void)
   LAYER_OWN_T r = layer_read_binary(&in);
   __CPROVER_assert(verif_thrown == 0, "a freshly written image loads without exception");
   __CPROVER_assert(in.pos == in.len, "the reader consumes exactly the bytes the writer produced");
+#if LAYER <= 3
   for (unsigned k = 0; k < DIMS_IN; k++)
     __CPROVER_assert(r.m_sizes.m_data[k] == in_o.m_sizes.m_data[k], "configuration reproduced exactly");
-  __CPROVER_assert(r.m_storage.token == in_o.m_storage.token, "inner backend value is the one B's reader returned for B's image");
+#else
+  for (unsigned k = 0; k < DIMS_IN; k++)
+    __CPROVER_assert(__CPROVER_equal(r.m_min.m_data[k], in_o.m_min.m_data[k]) && __CPROVER_equal(r.m_max.m_data[k], in_o.m_max.m_data[k]), "configuration reproduced exactly");
+#endif
+  __CPROVER_assert(r.B_MEMBER.token == in_o.B_MEMBER.token, "inner backend value is the one B's reader returned for B's image");
   VERIF_REACH();
 }
